@@ -45,10 +45,10 @@ Each is a change to non-test `.go` files that
 2. still COMPILES (`go build ./...`) and still PASSES the complete existing test suite unchanged (`go test -count=1 ./...`, all packages `ok`); do not edit or add `_test.go` files as part of the mutation,
 3. is REALISTIC — something a maintainer could plausibly write while refactoring, optimising, generalising or "fixing" something,
 4. needs something SPECIFIC to manifest (unusual input such as a negative index, h != v zooms, grid edge, high zoom, empty or repeated list entries, malformed string; a multi-step call sequence; repeated or concurrent calls; or two cooperating sites that each look fine alone). Ordinary everyday use should NOT expose it at once.
-Make m1 and m2 different in mechanism and site. Be creative: assume the obvious mutations have been tried already (wrong rounding mode at the prominent site, dropping a de-duplication call, swapping two arguments, a cache keyed on too little, an early-return shortcut before validation, clamping an index, state reused across list elements, one element's zooms used instead of per-axis maxima, a running maximum used before it is final, narrowing an integer type, strings.TrimLeft used as TrimPrefix, a guard replaced by a weaker derived test, package-level scratch state, a seen-set hit that leaves or skips a whole loop, float formatting verbs for integer fields, the sign of Go's % remainder, | versus - precedence in bit-fill idioms, a shadowed error variable, a pre-sized list that is not trimmed, a lookup table with an off-by-one end, a validation moved before/after a normalising fallback, a batch/chunk split that drops the remainder, a sub-slice window stored and appended to later, sort+Compact under a comparator that ignores a field, a 'single tile at zoom 0' fast path applied to the vertical axis, a request parameter normalised before it is echoed in the result, a quadkey accumulated in float64, an unsigned comparison trick with the wrong bound, a hand-written integer parser with a weak overflow check, a digit-run tokenizer that drops the minus sign, ParseUint for a signed field, a fused loop counter decoded with the wrong stride, an in-place subdivision that overwrites unread elements, a saturated shift count, a symmetric range test that refuses the lowest index, a setter that clamps, a pointer alias of the caller's object, a result skipped by comparing output with input). Look at interactions between functions, at rarely taken branches, at boundary conditions of loops, at error paths, at type conversions, at operator precedence, at off-by-one in range ends, at aliasing of slices.
+Make m1 and m2 different in mechanism and site. Be creative: assume the obvious mutations have been tried already (wrong rounding mode at the prominent site, dropping a de-duplication call, swapping two arguments, a cache keyed on too little, an early-return shortcut before validation, clamping an index, state reused across list elements, one element's zooms used instead of per-axis maxima, a running maximum used before it is final, narrowing an integer type, strings.TrimLeft used as TrimPrefix, a guard replaced by a weaker derived test, package-level scratch state, a seen-set hit that leaves or skips a whole loop, float formatting verbs for integer fields, the sign of Go's % remainder, | versus - precedence in bit-fill idioms, a shadowed error variable, a pre-sized list that is not trimmed, a lookup table with an off-by-one end, a validation moved before/after a normalising fallback, a batch/chunk split that drops the remainder, a sub-slice window stored and appended to later, sort+Compact under a comparator that ignores a field, a 'single tile at zoom 0' fast path applied to the vertical axis, a request parameter normalised before it is echoed in the result, a quadkey accumulated in float64, an unsigned comparison trick with the wrong bound, a hand-written integer parser with a weak overflow check, a digit-run tokenizer that drops the minus sign, ParseUint for a signed field, a fused loop counter decoded with the wrong stride, an in-place subdivision that overwrites unread elements, a saturated shift count, a symmetric range test that refuses the lowest index, a setter that clamps, a pointer alias of the caller's object, a result skipped by comparing output with input, a table indexed by a signed option behind an upper bound only, a length cap that forgets the minus sign, a wrapper that calls its list function once per element, Max/Min through subtraction or negation, a single-exit return that leaks a partial list with the error, worker goroutines sharing one parser object or a loop variable, a pooled map that is not cleared on error paths). Look at interactions between functions, at rarely taken branches, at boundary conditions of loops, at error paths, at type conversions, at operator precedence, at off-by-one in range ends, at aliasing of slices.
 
 ### r1, r2, r3 — behaviour-preserving refactorings
-Each is a realistic, NON-TRIVIAL refactoring (20–90 changed lines) of the functions that implement the property (and, where useful, of the helpers and validators they call), of the kind a careful maintainer does during clean-up or modernisation, and does NOT change observable behaviour for ANY input (including invalid input: same errors, same empty/partial results, same panics or absence of panics). Be bold: the more different the code looks, the better. Each of the three must use a DIFFERENT idiom family (combining two in one change is welcome); pick from: (1) closures and iterators (local closures for validation or per-element work, `func(yield)` push iterators, index-based or fused or split loops, labelled break/continue); (2) small value types with methods that carry validation, arithmetic and formatting, results passed as structs; (3) table-driven code (lookup/permutation/offset tables, precomputed power-of-two tables built at package level, dispatch maps of functions); (4) error-handling style (package-level sentinel errors, a local `fail` helper, named results with bare returns, `defer`-based adjustment of results, a single exit with an `err` variable, flags set on the failing edge, switch-true guard chains); (5) standard-library replacements (`slices`, `maps`, `strings.Cut/Count`, `strconv.AppendInt`, `strings.Builder`, `math.Ldexp`, `math/bits`, `cmp`, `min`/`max`, unsigned range tests); (6) generics (one generic helper replacing near-duplicates); (7) moving checks between caller and callee, recursion vs explicit stack; (8) representation of intermediates (parsed integers vs strings, arrays vs named fields, struct-keyed maps, sorted slices + Compact, pre-sized slices filled by index and trimmed; worker goroutines with a WaitGroup that handle every element). Do not touch exported signatures. The property must hold exactly as before and the existing suite must pass.
+Each is a realistic, NON-TRIVIAL refactoring (20–90 changed lines) of the functions that implement the property (and, where useful, of the helpers and validators they call), of the kind a careful maintainer does during clean-up or modernisation, and does NOT change observable behaviour for ANY input (including invalid input: same errors, same empty/partial results, same panics or absence of panics). Be bold: the more different the code looks, the better. Each of the three must use a DIFFERENT idiom family (combining two in one change is welcome); pick from: (1) closures and iterators (local closures for validation or per-element work, `func(yield)` push iterators, index-based or fused or split loops, labelled break/continue); (2) small value types with methods that carry validation, arithmetic and formatting, results passed as structs; (3) table-driven code (lookup/permutation/offset tables, precomputed power-of-two tables built at package level, dispatch maps of functions); (4) error-handling style (package-level sentinel errors, a local `fail` helper, named results with bare returns, `defer`-based adjustment of results, a single exit with an `err` variable, flags set on the failing edge, switch-true guard chains); (5) standard-library replacements (`slices`, `maps`, `strings.Cut/Count`, `strconv.AppendInt`, `strings.Builder`, `math.Ldexp`, `math/bits`, `cmp`, `min`/`max`, unsigned range tests); (6) generics (one generic helper replacing near-duplicates); (7) moving checks between caller and callee, recursion vs explicit stack; (8) representation of intermediates (parsed integers vs strings, arrays vs named fields, struct-keyed maps, sorted slices + Compact, pre-sized slices filled by index and trimmed; worker goroutines with a WaitGroup that handle every element); (9) concurrency that keeps results identical (workers filling disjoint slots of a pre-sized slice, `sync.Once` read-only tables, `sync.Pool` scratch buffers that are fully reset); (10) control-flow reshaping (state machines, loop peeling, do-while shapes, flags instead of breaks, recursion as an explicit work list, `a == b` on small arrays or structs); (11) arithmetic written differently but bit-identically for every input (shifts and masks, `math.Ldexp`, unsigned range tests). Do not touch exported signatures. The property must hold exactly as before and the existing suite must pass.
 
 ### Files to write
 For each k in {{m1, m2, r1, r2, r3}} write into `{d}/out/<k>/`:
